@@ -137,7 +137,9 @@ func (r *sRun) execute(t *testing.T, tp *simrt.Tape, cfg simrt.Config, mk func()
 	return s, res, finished
 }
 
-func runCall(ss zoekt.Streamer, c *sCall) {
+func runCall(ss zoekt.Streamer, c *sCall) { runCallCtx(ss, c, refCtx()) }
+
+func runCallCtx(ss zoekt.Streamer, c *sCall, ctx context.Context) {
 	defer func() {
 		if p := recover(); p != nil {
 			c.Panic = fmt.Sprint(p)
@@ -146,7 +148,6 @@ func runCall(ss zoekt.Streamer, c *sCall) {
 		c.RetTime = time.Duration(time.Now().UnixNano())
 		c.Done = true
 	}()
-	ctx := refCtx()
 	var cancel context.CancelFunc = func() {}
 	switch c.CancelKind {
 	case 1:
@@ -312,4 +313,15 @@ func refTypeRepo(shards []*sImage, q query.Q) (query.Q, error) {
 		return &query.RepoSet{Set: set}
 	})
 	return out, err
+}
+
+func hasTypeRepo(q query.Q) bool {
+	found := false
+	query.Map(q, func(q query.Q) query.Q {
+		if t, ok := q.(*query.Type); ok && t.Type == query.TypeRepo {
+			found = true
+		}
+		return q
+	})
+	return found
 }
